@@ -223,6 +223,7 @@ func (s *connectionWorker) serve(ctx context.Context, session *sessions.Session)
 }
 
 func (s *manager) shutdownSession(ctx context.Context, session *sessions.Session) {
+	defer vhook("shutdown.done", session.ID())
 	s.local.Delete(session.ID())
 	topics := session.GetTopics()
 	for idx := range topics {
@@ -256,8 +257,10 @@ func (s *connectionWorker) processSession(ctx context.Context, session *sessions
 	started := time.Now()
 	pkt, err := s.decoder.Decode(c)
 	if err != nil {
+		vhook("conn.read.err", session.ID(), err)
 		return false
 	}
+	defer vhook("conn.pkt.done", session.ID())
 	defer stats.SessionPacketHandling.With(prometheus.Labels{
 		"packet_type": packet.TypeString(pkt),
 	}).Observe(stats.MilisecondsElapsed(started))
